@@ -33,7 +33,7 @@ WellFormed(e) ==
     /\ "fs" \in DOMAIN e.in /\ TensAll(e.in.fs)
     /\ (e.cfg.kind \in {"cp", "p2"} => WOK(e.in))
     /\ (e.cfg.kind = "tucker" => "core" \in DOMAIN e.in /\ IsLogT(e.in.core) /\ TBounded(e.in.core))
-    /\ (e.cfg.kind = "p2" => "ps" \in DOMAIN e.in /\ TensAll(e.in.ps))
+    /\ (e.cfg.kind = "p2" => "ps" \in DOMAIN e.in /\ TensAll(e.in.ps) /\ "pden" \in DOMAIN e.in /\ e.in.pden \in {1, 2})
     /\ (e.cfg.op \in {"cp_mode_dot", "tucker_mode_dot"} =>
             /\ e.cfg.operand \in {"matrix", "vector"}
             /\ (e.cfg.operand = "matrix" => "m" \in DOMAIN e.in /\ IsLogT(e.in.m) /\ TBounded(e.in.m) /\ Len(e.in.m.shape) = 2)
